@@ -83,13 +83,15 @@ Definition as_cres (x : sx) : option cres :=
   | I 0%Z => Some COk | I 1%Z => Some CReError | I 2%Z => Some COverflow
   | B t => Some (COther t) | _ => None
   end.
-(* 0/1 = documented truth value; 2/3 = the same, but the key path runs through a non-container *)
+(* 0/1 = documented truth value; 2/3 = the same, but the key path runs through a non-container;
+   a byte string = the environment raises that exception when the atom is evaluated *)
 Definition as_tv (x : sx) : option tv :=
   match x with
-  | I 0%Z => Some {| tv_val := false; tv_through_scalar := false |}
-  | I 1%Z => Some {| tv_val := true; tv_through_scalar := false |}
-  | I 2%Z => Some {| tv_val := false; tv_through_scalar := true |}
-  | I 3%Z => Some {| tv_val := true; tv_through_scalar := true |}
+  | I 0%Z => Some {| tv_val := false; tv_through_scalar := false; tv_fault := None |}
+  | I 1%Z => Some {| tv_val := true; tv_through_scalar := false; tv_fault := None |}
+  | I 2%Z => Some {| tv_val := false; tv_through_scalar := true; tv_fault := None |}
+  | I 3%Z => Some {| tv_val := true; tv_through_scalar := true; tv_fault := None |}
+  | B t => Some {| tv_val := false; tv_through_scalar := false; tv_fault := Some t |}
   | _ => None
   end.
 Definition sx_res (r : res expr) : sx :=
@@ -120,7 +122,7 @@ Fixpoint tfind (a : atom) (t : table) : option (cres * list tv) :=
 Definition QM : N := 63.
 Definition table_compile (t : table) (a : atom) : cres :=
   match tfind a t with Some (c, _) => c | None => COther (QM :: Sx.print (sx_atom a)) end.
-Definition tv_default : tv := {| tv_val := false; tv_through_scalar := false |}.
+Definition tv_default : tv := {| tv_val := false; tv_through_scalar := false; tv_fault := None |}.
 Definition table_truth (t : table) (a : atom) (i : nat) : tv :=
   match tfind a t with Some (_, l) => nth i l tv_default | None => tv_default end.
 
@@ -140,10 +142,11 @@ Definition run_model (c : case) : obs :=
   (outcome (c_var c) tr (c_envs c) r1, outcome (c_var c) tr (c_envs c) r2).
 
 Definition reference (c : case) : res expr := parse documented (table_compile (c_table c)) (c_str c).
-(* what the property demands of match() on every environment *)
+(* what the property demands of match() on every environment: the documented evaluation of that call
+   alone (= the Boolean reading [denote] unless the environment itself raises, theorem C18_eval_spec) *)
 Definition wanted (c : case) : list val :=
   match reference c with
-  | Ok e => map (fun i => VB (denote (table_truth (c_table c)) e i)) (seq 0 (c_envs c))
+  | Ok e => map (eval documented (table_truth (c_table c)) e) (seq 0 (c_envs c))
   | Er _ => repeat (VExc (lit "ValueError")) (c_envs c)
   end.
 
